@@ -187,7 +187,13 @@ type EntsT struct {
 	ByKey map[string]DirT `valid:"exist"`
 }
 
+// Time is a struct type of this package that happens to be NAMED like time.Time (a time of day).
+type Time struct {
+	Hour, Min int
+}
+
 var Types = map[string]reflect.Type{
+	"Time":  reflect.TypeOf(Time{}),
 	"DirT":   reflect.TypeOf(DirT{}),
 	"EntsT":  reflect.TypeOf(EntsT{}),
 	"Leaf":   reflect.TypeOf(Leaf{}),
